@@ -3,13 +3,18 @@
    The statement as an executable predicate over (input, observation of the implementation). *)
 From TT Require Import Lib.Base Gen.Handlers Model.Run Spec.Run.
 
-Record input := { i_prog : prog; i_attrs : list (nat * nat) }.   (* vars(scratch) before the test *)
+(* i_attrs: the namespaces of the patched objects before the test - an instance, its class and the
+   class's base class; key 3*n + l = attribute n in the namespace of the instance (l = 0), of the class
+   (1), of the base class (2), attribute lookup falling back in that order; keys from 30: attributes of
+   the instance served by a property or an inherited slot (Model.Run.parent) *)
+Record input := { i_prog : prog; i_attrs : list (nat * nat) }.
 
 (* one run() of the instance *)
 Record runobs := {
   r_log : list lev;               (* execution log written by the bodies and by the patched object *)
   r_left : nat;                   (* len(case._cleanups) afterwards *)
-  r_attrs : list (nat * nat);     (* vars(scratch) afterwards *)
+  r_attrs : list (nat * nat);     (* the namespaces afterwards: vars() of each patched object; for a property /
+                                     slot attribute whether getattr finds it, and what *)
   r_outs : list outcome }.        (* the outcome calls the result received *)
 Record obs := { o_first : runobs; o_second : runobs }.
 
@@ -24,7 +29,8 @@ Definition nn_eqb : nat * nat -> nat * nat -> bool := pair_eqb Nat.eqb Nat.eqb.
 
 Definition wf (i : input) : bool := wf_prog (i_prog i).
 
-(* the same attributes with the same values (as a mapping) *)
+(* the same attributes with the same values (as a mapping): every target holds what it held before the
+   test and nothing else - an attribute it only inherited, or did not have, is absent from it again *)
 Definition same_attrs (a b : list (nat * nat)) : bool :=
   forallb (fun k => option_eqb Nat.eqb (aget k a) (aget k b)) (map fst a ++ map fst b).
 
